@@ -140,10 +140,12 @@ def verdict_expr(c, r, ir, real):
         obs_expr = "forallb (obs_vertex_ok o) %s" % ot
     elif (r.get("obs") or {}).get("obs", 1) is None:
         obs_expr = "true"      # the module did not build against the shim (known C01 classes); not this property's oracle
-    return ('[wf %s && (wf_vertex_inputs %s || on_out %s kf_vertex_struct_missing); agree_res agree_C07 (gen %s ""%%string None %s) %s; '
+    # the known-finding classes are decided on the SHADER (the cause), not on the output (the symptom): a struct missing
+    # from the output for any other reason than "also an entry point result" is a violation
+    return ('[wf %s && (wf_vertex_inputs %s || kf_vertex_struct_is_result %s); agree_res agree_C07 (gen %s ""%%string None %s) %s; '
             'on_out %s (fun o => C07_ok %s o && %s && %s); '
-            'on_out %s kf_vertex_struct_missing; kf_bare_location_arg %s]'
-            % (ir, ir, real, ir, coq_options(c["opts"]), real, real, ir, obs_expr, "true" if stage else "false", real, ir))
+            'kf_vertex_struct_is_result %s; kf_bare_location_arg %s]'
+            % (ir, ir, ir, ir, coq_options(c["opts"]), real, real, ir, obs_expr, "true" if stage else "false", ir, ir))
 
 
 def behavioural_ok(r):
